@@ -34,7 +34,9 @@ Fixpoint strs_eqb (a b : list str) : bool :=
 
 Definition res_code (r : result) : Z := match r with ROk | RAppendUid _ _ => 0 | RNo => 1 | RBad => 2 end.
 
-(** one executed operation: the model op, the observed SQL labels, the observed
+(** ([ov_schema] = -3: no store observation for this operation — the [COpen]
+    at the head of a first delivery.)
+    one executed operation: the model op, the observed SQL labels, the observed
     reply class (0 OK, 1 NO, 2 BAD, -1 not compared), the observed store after it *)
 Definition ostep := (cop * list str * Z * oview)%type.
 
@@ -49,7 +51,7 @@ Fixpoint eval_trace_from (i : Z) (d : dstore) (l : list ostep) (a b c : Z) (n : 
     let d' := run_steps d p in
     let a' := if (a <? 0) && negb (strs_eqb (run_labels d p) labs) then i else a in
     let b' := if (b <? 0) && (0 <=? rc) && negb (res_code (snd (big d o)) =? rc) then i else b in
-    let c' := if (c <? 0) && negb (view_agrees d' ov) then i else c in
+    let c' := if (c <? 0) && negb (ov_schema ov =? -3) && negb (view_agrees d' ov) then i else c in
     eval_trace_from (i + 1) d' r a' b' c' (n + length p)
   end.
 Definition eval_trace (l : list ostep) : Z * Z * Z * Z := eval_trace_from 0 absent l (-1) (-1) (-1) 0.
@@ -62,7 +64,7 @@ Fixpoint expected_labels (d : dstore) (h : list cop) : list (list str) :=
   end.
 
 (** crash replay: all crash points [k] whose model state agrees with the
-    recovered store, with the class code of that state; and the number of
+    recovered store, with 0 if the model says that state is reopened usable (always, by c07_every_crash_state_reopens), else 1; and the number of
     micro-steps after each operation of the workload *)
 Definition prefix_states (d : dstore) (l : list mstep) : list dstore :=
   d :: (fix go (d : dstore) (l : list mstep) : list dstore :=
@@ -71,7 +73,7 @@ Definition prefix_states (d : dstore) (l : list mstep) : list dstore :=
 Fixpoint matching_from (k : Z) (ds : list dstore) (ov : oview) : list (Z * Z) :=
   match ds with
   | [] => []
-  | d :: r => (if view_agrees d ov then [(k, class_code (classify_state d))] else []) ++ matching_from (k + 1) r ov
+  | d :: r => (if view_agrees d ov then [(k, if reopen_ok_b d 0 then 0 else 1)] else []) ++ matching_from (k + 1) r ov
   end.
 
 Fixpoint cum_steps (d : dstore) (h : list cop) (n : Z) : list Z :=
